@@ -21,7 +21,7 @@ NA = {
  "C15": "pure function of a directory's contents; the statement has no fault, crash or history clause",
  "C17": "pure function of one fitted curve",
 }
-PENDING = {"C20": "4.9"}
+PENDING = {}
 
 CHECKS = {
  "C03": dict(engine="curve-sim", cat="exploration", ref="DESIGN.md 4.1",
@@ -48,6 +48,9 @@ CHECKS = {
  "C19": dict(engine="profile-sim", cat="exploration", ref="DESIGN.md 4.8",
    text="seeded histories over the profile file as durable state: set / get / restart (all Profile objects dropped, new one on the same file) / get_fit_params / legacy key=value file written from the reference / interactive setup driven by a scripted input() (each prompt answered or skipped, invalid-then-valid answers for the looping prompts) / batch fit on a scratch data folder; reference dict with the documented defaults; every read through a new Profile equals the reference, legacy == JSON values, fit parameters == defaults overridden by exactly the stored entries, stored values == answers (with units), batch fit accepts the profile and statistics.tsv / plots.tif have one row / page per curve with independently recomputed modulus and rating.",
    note="PROFILE_PATH is bound at import: each process imports nanite.cli under a private XDG_CONFIG_HOME; answers stay inside each prompt's documented domain (numbers strictly inside parameter bounds); the external iterative model sneddon_spher is left out of the batch fits for cost"),
+ "C20": dict(engine="map-sim", cat="exploration", ref="DESIGN.md 4.9",
+   text="seeded scratch folders of measurement files (synthetic HDF5 maps with seeded shape, scan order and missing pixels; multi-curve files; recorded JPK curves, maps and csv; files without spring constant with and without innate tip position) loaded through load_group / IndentationGroup / QMap with progress callbacks and metadata overrides, then histories of fit / rate / edit / re-preprocess / refit on the map's curves with get_qmap of the three fit features in between; every load is compared with what afmformats' own loader yields (count, order, enums, class, override applied, refusal rule, callback monotone in [0, 1]); every map is compared pixel by pixel, bit for bit, with the curves' current fit/rating in the stated unit, NaN and warning counts included.",
+   note="ground truth for file contents is afmformats' loader on the same file; metadata overrides a format reader does not support are the dependency's limit"),
 }
 
 
